@@ -409,7 +409,8 @@ def server_level(ctx, rng):
             rounds += 1
             if quick and rounds > 1:
                 break
-            reqs = request_list(rng)
+            import random as _random
+            reqs = request_list(_random.Random(ctx.seed * 7919 + rounds))     # the same stream in every shard: the offsets are partitioned, not the streams
 
             def frames_of(session, reqs=reqs):
                 return [rc.rr_frame(rc.enc_unconnected_send(rc.enc_request(r)), session, struct.pack('<Q', 1000 + i)) for i, r in enumerate(reqs)]
@@ -419,10 +420,10 @@ def server_level(ctx, rng):
                 offs = set()
                 pos = 0
                 for f in frames:
-                    for d in (-1, 0, 1, 2, 4, 8, 12, 20, 23, 24, 25, 30):
+                    for d in (-6, -5, -4, -3, -2, -1, 0, 1, 2, 4, 8, 12, 20, 23, 24, 25, 30):
                         offs.add(pos + d)
                     pos += len(f)
-                offs.update([pos - 1, pos])
+                offs.update([pos - 6, pos - 5, pos - 4, pos - 3, pos - 2, pos - 1, pos])
                 # every offset inside the last write frame
                 last_w = max(i for i, r in enumerate(reqs) if 'write_tag' in r)
                 start = sum(len(f) for f in frames[:last_w])
